@@ -1168,7 +1168,7 @@ func (g *FnGen) checkCalleeKey(ci ssa.CallInstruction, k string) {
 	}
 	for _, a := range r.C.Assigns {
 		ak, base := g.resolveAssignPlace(a)
-		if ak == "*" || (ak == k && base == "") {
+		if ak == "*" || (ak == k && base == "") || (ak == k && strings.HasPrefix(k, "G:")) {
 			return
 		}
 	}
